@@ -112,9 +112,11 @@ func (s *writer) start(start bool) {
 
 			for m := tmpQueue.Remove(); m != nil; m = tmpQueue.Remove() {
 				switch m.(type) {
-				case *mqttp.Publish:
-					s.qos12Messages.Add(m)
-				case *mqttp.Ack:
+				case *mqttp.Publish, *mqttp.Ack:
+					// unacknowledged PUBLISH and PUBREL packets are retransmitted with their original
+					// packet id. Id and send quota have been re-acquired by packetLoader, thus they go
+					// through the queue which is sent unconditionally: passing a PUBLISH through
+					// qos12Messages would acquire a second id and quota slot for it
 					s.pubrelMessages.Add(m)
 				}
 			}
